@@ -136,3 +136,29 @@ contract(
     trace={"pdb2pqr.ligand.mol2:Mol2Atom.assign_radius": None, "pdb2pqr.ligand.peoe:equilibrate": None},
     name="assign_parameters", native=False,
 )
+
+
+# ---------------------------------------------------------------- formal charge of a phosphate's terminal oxygens: no names
+# A phosphorus with two single-bonded terminal O.3 oxygens and one double-bonded oxygen; the oxygens' NAMES are symbolic
+# (distinct, as MOL2 atom names are): which oxygen carries the -1 is decided by the bond records, never by the names, so
+# renaming atoms cannot move charge.
+def _phosphate():
+    def B(nm, a, b, t):
+        return Named(nm, Obj("pdb2pqr.ligand.mol2:Mol2Bond", atoms=TupleOf(Ref(a), Ref(b)), type=Const(t), bond_id=Const(1)))
+    p = Named("pp", Obj("pdb2pqr.ligand.mol2:Mol2Atom", name=Const("P1"), type=Const("P.3"),
+                        bonds=Items(B("b1", "pp", "oa", "single"), B("b2", "pp", "ob", "single"), B("b3", "pp", "oc", "double")),
+                        bonded_atoms=Items(Ref("oa"), Ref("ob"), Ref("oc"))))
+    oa = Named("oa", Obj("pdb2pqr.ligand.mol2:Mol2Atom", name=Named("na", Str), type=Const("O.3"), bonds=Items(Ref("b1")),
+                         bonded_atoms=Items(Ref("pp"))))
+    ob = Named("ob", Obj("pdb2pqr.ligand.mol2:Mol2Atom", name=Named("nb", Str), type=Const("O.3"), bonds=Items(Ref("b2")),
+                         bonded_atoms=Items(Ref("pp"))))
+    oc = Named("oc", Obj("pdb2pqr.ligand.mol2:Mol2Atom", name=Const("O9"), type=Const("O.2"), bonds=Items(Ref("b3")),
+                         bonded_atoms=Items(Ref("pp"))))
+    return Items(p, oa, ob, oc)
+
+
+@_harness("C16", params={"atoms": _phosphate()}, requires=["na != nb and na != 'O9' and nb != 'O9'"],
+          ensures=["result[0] == -1 and result[1] == 0", "result[0] + result[1] == -1"],
+          name="formal_charge.phosphate_names")
+def phosphate_formal(atoms):
+    return (atoms[1].formal_charge, atoms[2].formal_charge)
